@@ -8,7 +8,7 @@
     CURRENT window and settings — holds for every environment and every history of
     environment changes.  The excluded key function [key_env_first] refutes it: a variable
     that agrees with the window at start-up pins the key, and a resize is never noticed. *)
-From Coq Require Import List ZArith Bool Arith Lia.
+From Coq Require Import List ZArith Bool Arith.
 Import ListNotations.
 From TI Require Import lib.Sched model.Caches model.CachesEnv proofs.CachesProofs.
 Open Scope Z_scope.
@@ -78,8 +78,8 @@ Proof.
   - unfold get_tsc_resize. destruct (tsc s) as [[v [c r]]|]; simpl.
     + destruct ((cols (tm s) =? c) && (rows (tm s) =? r)); simpl.
       * now rewrite Nat.eqb_refl.
-      * destruct (Nat.eqb_spec (S (n_tsc s)) (n_tsc s)); auto; lia.
-    + destruct (Nat.eqb_spec (S (n_tsc s)) (n_tsc s)); auto; lia.
+      * destruct (Nat.eqb_spec (S (n_tsc s)) (n_tsc s)) as [E|E]; auto. now apply Nat.neq_succ_diag_l in E.
+    + destruct (Nat.eqb_spec (S (n_tsc s)) (n_tsc s)) as [E|E]; auto. now apply Nat.neq_succ_diag_l in E.
   - pose proof (tm_get_cs_abort e s). destruct (get_cs_abort e s); auto.
   - unfold get_ratio_abort. destruct (ratio s); auto.
     pose proof (tm_get_cs_abort e s). destruct (get_cs_abort e s); auto.
